@@ -39,9 +39,9 @@ __CPROVER_ensures(RET <= n)
 __CPROVER_ensures((gh_nul < n && __CPROVER_r_ok(s, gh_nul + 1) && s[gh_nul] == 0) ==> RET <= gh_nul)
 __CPROVER_ensures((RET < n && __CPROVER_r_ok(s, RET + 1)) ==> s[RET] == 0)
 __CPROVER_ensures((gh_w < RET && __CPROVER_r_ok(s, RET)) ==> s[gh_w < RET ? gh_w : 0] != 0)
-__CPROVER_ensures((__CPROVER_same_object(gh_wp, s) && OFF(gh_wp) >= OFF(s) && (size_t) (OFF(gh_wp) - OFF(s)) < RET && __CPROVER_r_ok(gh_wp, 1)) ==> *gh_wp != 0)
+__CPROVER_ensures((__CPROVER_same_object(gh_wp, s) && OFF(gh_wp) >= OFF(s) && (size_t) (OFF(gh_wp) - OFF(s)) < RET && (size_t) OFF(gh_wp) < __CPROVER_OBJECT_SIZE(s)) ==> *gh_wp != 0)
 /* the same for a NUL witness given as a pointer (callers that scan one object from two different starts) */
-__CPROVER_ensures((n > 0 && __CPROVER_same_object(gh_nulp, s) && OFF(gh_nulp) >= OFF(s) && (size_t) (OFF(gh_nulp) - OFF(s)) < n && __CPROVER_r_ok(gh_nulp, 1) && *gh_nulp == 0) ==> RET <= (size_t) (OFF(gh_nulp) - OFF(s)))
+__CPROVER_ensures((n > 0 && __CPROVER_same_object(gh_nulp, s) && OFF(gh_nulp) >= OFF(s) && (size_t) (OFF(gh_nulp) - OFF(s)) < n && (size_t) OFF(gh_nulp) < __CPROVER_OBJECT_SIZE(s) && *gh_nulp == 0) ==> RET <= (size_t) (OFF(gh_nulp) - OFF(s)))
 ;
 /* ASSUMED: free releases p; modelled as an observer only (ownership is decided by the bounded
  * jobs that use CBMC's real malloc/free model) */
